@@ -38,7 +38,7 @@ type c04ServerCfg struct {
 }
 
 type c04Cmd struct {
-	Op      string            // reset | req | quiesce | close
+	Op      string            // reset | ping | req | quiesce | close
 	Cfg     *c04ServerCfg     `json:",omitempty"` // reset: build a fresh server instance
 	Method  string            `json:",omitempty"`
 	Path    string            `json:",omitempty"`
@@ -132,6 +132,13 @@ func c04ChildMain() {
 			os.Exit(4)
 		}
 		var resp c04Resp
+		if cmd.Op == "ping" {
+			resp.Mode = "pong"
+			if err := out.Encode(&resp); err != nil {
+				os.Exit(4)
+			}
+			continue
+		}
 		if cmd.Op == "reset" {
 			// a fresh server instance (new storage root, buffer, app) in this process
 			if inst != nil {
@@ -324,14 +331,17 @@ func (c *c04Child) reap(why string) string {
 	c.dead = true
 	c.cmdW.Close()
 	err := c.cmd.Wait()
-	tail := c.stderrNew()
-	return fmt.Sprintf("%s; exit=%v; %s", why, err, c04PanicHead(tail))
+	// the whole output, not just the unread part: a per-request check may already
+	// have consumed the beginning of the fatal panic
+	all, _ := os.ReadFile(c.stderrF.Name())
+	c.stderrAt = int64(len(all))
+	return fmt.Sprintf("%s; exit=%v; %s", why, err, c04PanicHead(string(all)))
 }
 
 // c04PanicHead extracts the panic / fatal error message and the first arc frames.
 func c04PanicHead(s string) string {
-	idx := strings.Index(s, "panic: ")
-	if j := strings.Index(s, "fatal error: "); j >= 0 && (idx < 0 || j < idx) {
+	idx := strings.LastIndex(s, "panic: ")
+	if j := strings.LastIndex(s, "fatal error: "); j > idx {
 		idx = j
 	}
 	if idx < 0 {
@@ -344,7 +354,7 @@ func c04PanicHead(s string) string {
 	var keep []string
 	keep = append(keep, lines[0])
 	for _, l := range lines[1:] {
-		if strings.Contains(l, "basekick-labs/arc/internal") && !strings.Contains(l, "verif") && strings.Contains(l, "(") {
+		if (strings.Contains(l, "basekick-labs/arc/internal") || strings.Contains(l, "arrow-go")) && !strings.Contains(l, "verif") && strings.Contains(l, "(") && !strings.HasPrefix(l, "\t") {
 			keep = append(keep, strings.TrimSpace(l))
 			if len(keep) >= 6 {
 				break
@@ -371,4 +381,23 @@ func (c *c04Child) stop() {
 	c.respR.Close()
 	c.stderrF.Close()
 	os.Remove(c.stderrF.Name())
+}
+
+// panicSeen checks the child's new output for panic text. A panic recovered by
+// the middleware leaves the process alive; a panic in a background goroutine
+// kills it - the ping tells the two apart. Returns (recovered, crashDiag).
+func (c *c04Child) panicSeen() (text string, crashed bool, diag string) {
+	se := c.stderrNew()
+	if !c04IsRecoveredPanic(se) {
+		return "", false, ""
+	}
+	// give a dying process a moment to finish writing its trace and exit
+	if _, died, d := c.do(c04Cmd{Op: "ping"}); died {
+		return se, true, d
+	}
+	time.Sleep(20 * time.Millisecond)
+	if _, died, d := c.do(c04Cmd{Op: "ping"}); died {
+		return se, true, d
+	}
+	return se + c.stderrNew(), false, ""
 }
